@@ -1,4 +1,4 @@
-import TmVerif.Proofs.LexRunNext
+import TmVerif.Proofs.LexRunRefine
 /-!
 C11 — Generated Go lexers tokenize exactly as the lexer rules specify (property theorems only).
 
@@ -19,43 +19,6 @@ namespace TmVerif.LexRun
 open TmVerif.LexTables
 
 /-! ### keyword switch -/
-
-def IsAscii (s : List UInt8) : Prop := ∀ b ∈ s, b.toNat < 0x80
-
-theorem decodeAll_ascii (n : Nat) : ∀ (s : List UInt8), IsAscii s → decodeAll true n s = decodeAll false n s := by
-  induction n with
-  | zero => intro s _; rfl
-  | succ n ih =>
-    intro s hs
-    cases s with
-    | nil => rfl
-    | cons b rest =>
-      have hb : ¬ b.toNat ≥ 0x80 := by have := hs b (by simp); omega
-      have hr : readChar true (b :: rest) = readChar false (b :: rest) := by
-        simp [readChar, hb]
-      simp only [decodeAll, hr]
-      have hw : (readChar false (b :: rest)).2 = 1 := by simp [readChar, hb]
-      rw [hw]
-      simp only [List.drop_succ_cons, List.drop_zero]
-      rw [ih rest (fun x hx => hs x (by simp [hx]))]
-
-/-- The hash the generated lexer accumulates over a text equals the hash `asStringSwitch` computed for
-the same text: always in rune mode, always once `stringHash` hashes bytes for byte-mode lexers, and
-for ASCII texts in any case. -/
-theorem runtime_hash_eq (sb hashFix : Bool) (text : List UInt8)
-    (h : sb = false ∨ hashFix = true ∨ IsAscii text) :
-    runtimeHash sb text = stringHash (hashFix && sb) text := by
-  unfold stringHash
-  cases sb with
-  | false => simp
-  | true =>
-    cases hashFix with
-    | true => rfl
-    | false =>
-      rcases h with h | h | h
-      · exact nomatch h
-      · exact nomatch h
-      · simp only [Bool.false_and, runtimeHash, decodeAll_ascii _ text h]
 
 /-- **Keyword switch.** Mirror of `asStringSwitch`/`stringHash` and of the generated
 `switch hash & mask { case V: if hash == H && "kw" == text … }`: looking up the matched text with the
@@ -199,5 +162,117 @@ example : tablesWF (probeSpec Variant.fixed) [] = true ∧
       (fun ts => ts.map fun t => (t.tok, t.start, t.stop, t.line, t.col)) =
     some [(3, 0, 1, 1, 1), (3, 2, 3, 2, 1), (0, 3, 3, 2, 2)] := by
   constructor <;> decide +kernel
+
+/-! ### the generated loop is `Tables.Scan` -/
+
+/-- `scanLoopG` with "no match" = action 0 IS the body of `lex.Tables.Scan` (`LexTables.scanLoop`);
+for tables whose rule ids were replaced by token ids "no match" is the `invalid_token` id. -/
+theorem C11_scanG_zero_is_scan (t : Tables) : ∀ (cs : List (Int × Nat)) (index : Nat) (state : Int) (size : Nat)
+    (action : Int), scanLoopG t 0 cs index state size action = scanLoop t cs index state size action := by
+  intro cs
+  induction cs with
+  | nil =>
+    intro index state size action
+    simp only [scanLoopG, scanLoop, Int.sub_zero]
+    cases getI t.dfa (state * t.numSymbols) <;> rfl
+  | cons c rest ih =>
+    intro index state size action
+    obtain ⟨r, w⟩ := c
+    simp only [scanLoopG, scanLoop, Int.sub_zero]
+    cases symOf t r with
+    | none => rfl
+    | some ch =>
+      simp only
+      cases getI t.dfa (state * t.numSymbols + ch) with
+      | none => rfl
+      | some st =>
+        simp only
+        by_cases h1 : st < 0
+        · simp only [h1, if_true]
+          by_cases h2 : st > actionStart t
+          · simp only [h2, if_true]
+            cases getI t.backtrack (-1 - st) with
+            | none => rfl
+            | some bt => exact ih _ _ _ _
+          · simp only [h2, if_false]
+        · simp only [h1, if_false]; exact ih _ _ _ _
+
+/-- **Refinement.** For well-formed tables whose generated class lookup agrees with the symbol map
+(`ClassOk`, enumerated by the driver over all runes), without `{eoi}` transitions (`eoiFinal`) and
+with matching keyword hashes (`HashOk`: rune mode, or fixes/C11-bytes-hash.diff, or ASCII keywords),
+the inlined loop of `Next` with its `backupToken/backupOffset/backupHash` bookkeeping, the hash switch
+and `rewind` returns exactly the token the specification defines: iterate `Tables.Scan` from the
+current offset in the current start condition, skip matches of space rules, replace a class-rule
+match by the keyword with the same TEXT, "no match" → `invalid_token` over the scanned prefix (one
+character when it is empty), EOI at the end of the input. -/
+theorem C11_next_refines_scan (sp : Spec) (hw : tablesWF sp [] = true)
+    (hc : classMapOkUpTo sp (charBound sp.opts.scanBytes) = true) (he : eoiFinal sp.t = true)
+    (hk : HashOk sp) (l : Lexer) (hp : PInv sp.opts sp.v l) (hv : ValidState sp l) :
+    ∃ tok l', next sp l = some (tok, l') ∧
+      specNext sp l.source l.state l.offset = some (tok, l'.tokenOffset, l'.offset) ∧
+      PInv sp.opts sp.v l' ∧ ValidState sp l' ∧ l'.source = l.source ∧ l'.state = l.state := by
+  have w := wfacts_of sp hw
+  obtain ⟨tok, l', h1, h2⟩ := nextLoop_spec sp w _ l hp hv (Nat.le_refl _)
+  refine ⟨tok, l', h1, nextLoop_refines sp w (classOk_of sp hc) he hk _ l hp hv tok l' h1, h2.pinv, ?_, h2.source, h2.state⟩
+  intro hm; rw [h2.state]; exact hv hm
+
+/-- One pass of `Next` (from `restart:` to `goto restart` / `return`) is one step of the specification. -/
+theorem C11_pass_refines_scan (sp : Spec) (hw : tablesWF sp [] = true)
+    (hc : classMapOkUpTo sp (charBound sp.opts.scanBytes) = true) (he : eoiFinal sp.t = true)
+    (hk : HashOk sp) (l : Lexer) (hp : PInv sp.opts sp.v l) (hv : ValidState sp l) (out : Outcome)
+    (h : nextOnce sp l = some out) : specOnce sp l.source l.state l.offset = some (absOut out) :=
+  nextOnce_refines sp (wfacts_of sp hw) (classOk_of sp hc) he hk l hp hv out h
+
+/-- The statement without the hash side condition (current tree: byte-mode lexers with non-ASCII
+keywords included). -/
+def C11_next_refines_scan_full : Prop :=
+  ∀ (sp : Spec), tablesWF sp [] = true → classMapOkUpTo sp (charBound sp.opts.scanBytes) = true →
+    eoiFinal sp.t = true → ∀ (l : Lexer), PInv sp.opts sp.v l → ValidState sp l →
+    ∀ tok l', next sp l = some (tok, l') → specNext sp l.source l.state l.offset = some (tok, l'.tokenOffset, l'.offset)
+
+/-- Tables of `scanBytes = true; ws: /[ \n]+/ (space); id: /[a-z\x80-\xff]+/ (class); 'if'; 'été'`
+as compiled by the real generator (tokens: invalid_token 1, ws 2, id 3, if 4, été 5). -/
+def bytesSpec (v : Variant) : Spec where
+  t := { scanBytes := true,
+         symbolMap := #[⟨0, 1⟩, ⟨10, 2⟩, ⟨11, 1⟩, ⟨32, 2⟩, ⟨33, 1⟩, ⟨97, 3⟩, ⟨123, 1⟩, ⟨128, 3⟩],
+         numSymbols := 4, stateMap := #[0],
+         dfa := #[-2, -2, 2, 1, -4, -4, -4, 1, -3, -3, 2, -3], backtrack := #[] }
+  cm := ⟨((List.range 128).map fun i => if i = 10 ∨ i = 32 then (2 : Int) else if 97 ≤ i ∧ i < 123 then 3 else 1).toArray,
+         false, #[], 3⟩
+  opts := ⟨true, false, false, true, true⟩
+  v := v
+  multiState := false
+  ruleToken := none
+  invalidToken := 1
+  spaceActions := [2]
+  classActions := [(3, [([0x69, 0x66], 4), ([0xC3, 0xA9, 0x74, 0xC3, 0xA9], 5)])]
+
+set_option maxRecDepth 100000 in
+/-- Current tree: the byte-mode lexer of `bytesSpec` returns the class token `id` (3) for the text
+`été`, the rules specify the keyword (5). -/
+theorem C11_bytes_keyword_current_tree_counterexample : ¬ C11_next_refines_scan_full := by
+  intro h
+  have hw : tablesWF (bytesSpec Variant.current) [] = true := by decide +kernel
+  have hc : classMapOkUpTo (bytesSpec Variant.current) (charBound (bytesSpec Variant.current).opts.scanBytes) = true := by
+    decide +kernel
+  have he : eoiFinal (bytesSpec Variant.current).t = true := by decide +kernel
+  have hi := init_pinv (bytesSpec Variant.current).opts Variant.current [0xC3, 0xA9, 0x74, 0xC3, 0xA9]
+  have hv : ValidState (bytesSpec Variant.current) (init (bytesSpec Variant.current).opts Variant.current [0xC3, 0xA9, 0x74, 0xC3, 0xA9]) := by
+    intro hm; exact nomatch hm
+  have e : next (bytesSpec Variant.current) (init (bytesSpec Variant.current).opts Variant.current [0xC3, 0xA9, 0x74, 0xC3, 0xA9]) =
+      some (3, ⟨[0xC3, 0xA9, 0x74, 0xC3, 0xA9], -1, 5, 5, 0, 1, 1, 0, 1, 0⟩) := by decide +kernel
+  have := h _ hw hc he _ hi.1 hv _ _ e
+  revert this
+  decide +kernel
+
+set_option maxRecDepth 100000 in
+-- non-vacuity of `C11_next_refines_scan`: the hypotheses hold for the fixed variant of `bytesSpec`, where `été` IS the keyword
+example : tablesWF (bytesSpec Variant.fixed) [] = true ∧
+    classMapOkUpTo (bytesSpec Variant.fixed) (charBound (bytesSpec Variant.fixed).opts.scanBytes) = true ∧
+    eoiFinal (bytesSpec Variant.fixed).t = true ∧
+    (next (bytesSpec Variant.fixed) (init (bytesSpec Variant.fixed).opts Variant.fixed [0xC3, 0xA9, 0x74, 0xC3, 0xA9])).map (·.1) = some 5 := by
+  refine ⟨by decide +kernel, by decide +kernel, by decide +kernel, by decide +kernel⟩
+
+example : HashOk (bytesSpec Variant.fixed) := Or.inr (Or.inl rfl)
 
 end TmVerif.LexRun
